@@ -15,6 +15,7 @@ From RX.Proofs Require Import Tactics CstLex CstBuild CstNsLex CstNsView CstNsBu
 From RX.Proofs Require Import CstFullS2Sem CstFullS3Sem CstFullS3Text CstFullS3Dtd CstFullS3Plug.
 From RX.Proofs Require Import CstFullS5Ws CstFullS5Lex CstFullS5Items CstFullS5Doc.
 From RX.Proofs Require CstDoc CstSoundTText CstFullS3 CstNsItems CstNsDoc DeclBodyLex.
+From RX.Proofs Require Import PubidChar.
 Open Scope N_scope.
 
 Ltac clia := repeat match goal with H : @eq bool _ true |- _ => clear H end; lia.
@@ -39,33 +40,62 @@ Proof.
   rewrite <- CstSoundTText.scalar_eq. apply H. exact Hc.
 Qed.
 
-Lemma lit_parts q v : wf_lit q v = true ->
-  (q = 39 \/ q = 34) /\ U8.Valid (utf8s v) /\ forallb (fun y => negb (y =? q)) (utf8s v) = true.
+Lemma syslit_parts q v : wf_syslit q v = true ->
+  (q = 39 \/ q = 34) /\ U8.Valid (utf8s v) /\ forallb (fun y => negb (y =? q)) (utf8s v) = true /\
+  forallb Chars.xml_Char v = true.
 Proof.
-  unfold wf_lit. intros H. apply andb_true_iff in H. destruct H as [Hq Hv]. pose proof (is_quote_cases _ Hq) as Hq'.
-  split; [exact Hq'|]. split.
-  - apply scalars_valid. revert Hv. apply forallb_imp. intros x Hx. apply andb_true_iff in Hx. apply Hx.
+  unfold wf_syslit. intros H. apply andb_true_iff in H. destruct H as [Hq Hv]. pose proof (is_quote_cases _ Hq) as Hq'.
+  assert (Hc : forallb Chars.xml_Char v = true).
+  { revert Hv. apply forallb_imp. intros x Hx. apply andb_true_iff in Hx. apply Hx. }
+  split; [exact Hq'|]. split; [|split; [|exact Hc]].
+  - apply Valid_utf8s, chars_scalars, uchars_of. exact Hc.
   - apply utf8s_forall; [intros y Hy; clear - Hq' Hy; lia|]. revert Hv. apply forallb_imp. intros x Hx.
     apply andb_true_iff in Hx. apply Hx.
+Qed.
+
+(* the model's byte class of a PubidLiteral is the PubidChar of the recommendation *)
+Lemma pubid_char_spec x : CharClass.pubid_char x = xml_PubidChar x.
+Proof.
+  unfold CharClass.pubid_char, is_ascii_alphanumeric, is_ascii_digit, CharClass.pubid_punct, xml_PubidChar, pubid_punct.
+  cbn [mem_b existsb]. lia.
+Qed.
+
+Lemma publit_parts q v : wf_publit q v = true ->
+  (q = 39 \/ q = 34) /\ utf8s v = v /\ forallb (fun y => y <? 128) v = true /\
+  forallb (fun x => negb (x =? q) && CharClass.pubid_char x) v = true.
+Proof.
+  unfold wf_publit. intros H. apply andb_true_iff in H. destruct H as [Hq Hv]. pose proof (is_quote_cases _ Hq) as Hq'.
+  assert (Ha : forallb (fun y => y <? 128) v = true).
+  { revert Hv. apply forallb_imp. intros x Hx. apply andb_true_iff in Hx. destruct Hx as [Hx _].
+    rewrite <- pubid_char_spec in Hx. apply pubid_char_ltb128. exact Hx. }
+  split; [exact Hq'|]. split; [apply CstFullS2Sem.utf8s_ascii; exact Ha|]. split; [exact Ha|].
+  revert Hv. apply forallb_imp. intros x Hx. apply andb_true_iff in Hx. destruct Hx as [Hx Hn].
+  rewrite pubid_char_spec, Hx, Hn. reflexivity.
 Qed.
 
 Lemma quote_lit q : q = 39 \/ q = 34 -> forallb (fun y => y <? 128) [q] = true.
 Proof. intros [-> | ->]; reflexivity. Qed.
 
-Lemma lit_valid q v : wf_lit q v = true -> U8.Valid (r_lit q v).
+Lemma syslit_valid q v : wf_syslit q v = true -> U8.Valid (r_lit q v).
 Proof.
-  intros H. destruct (lit_parts q v H) as (Hq & Hv & _). unfold r_lit.
+  intros H. destruct (syslit_parts q v H) as (Hq & Hv & _). unfold r_lit.
   repeat apply U8.Valid_app; try assumption; apply Valid_lit, quote_lit; exact Hq.
+Qed.
+
+Lemma publit_valid q v : wf_publit q v = true -> U8.Valid (r_lit q v).
+Proof.
+  intros H. destruct (publit_parts q v H) as (Hq & Hu & Ha & _). unfold r_lit. rewrite Hu.
+  repeat apply U8.Valid_app; try (apply Valid_lit; exact Ha); apply Valid_lit, quote_lit; exact Hq.
 Qed.
 
 Lemma extid_valid x : wf_extid x = true -> U8.Valid (r_extid x).
 Proof.
   destruct x as [ws q s|ws q p ws' q' s]; cbn [wf_extid r_extid]; rewrite !andb_true_iff.
   - intros [H1 H2]. destruct (s1_parts _ H1) as [_ Hw].
-    apply U8.Valid_app; [apply Valid_lit; reflexivity|]. apply U8.Valid_app; [apply s_valid; exact Hw|apply lit_valid; exact H2].
+    apply U8.Valid_app; [apply Valid_lit; reflexivity|]. apply U8.Valid_app; [apply s_valid; exact Hw|apply syslit_valid; exact H2].
   - intros [[[H1 H2] H3] H4]. destruct (s1_parts _ H1) as [_ Hw]. destruct (s1_parts _ H3) as [_ Hw'].
     apply U8.Valid_app; [apply Valid_lit; reflexivity|]. apply U8.Valid_app; [apply s_valid; exact Hw|].
-    apply U8.Valid_app; [apply lit_valid; exact H2|]. apply U8.Valid_app; [apply s_valid; exact Hw'|apply lit_valid; exact H4].
+    apply U8.Valid_app; [apply publit_valid; exact H2|]. apply U8.Valid_app; [apply s_valid; exact Hw'|apply syslit_valid; exact H4].
 Qed.
 
 Section Lex.
@@ -84,6 +114,13 @@ Proof.
   destruct (s_head _ _ Hw) as (_ & _ & Hx).
   rewrite Hx. cbn [negb]. f_equal. change (x :: w ++ l) with ((x :: w) ++ l).
   apply (skip_spaces_st text); [exact HW|apply s_spaces; exact Hw|exact Hs].
+Qed.
+
+Lemma starts_with_space_s p w l : W p (w ++ l) -> w <> [] -> wf_s w = true ->
+  starts_with_space (st p (w ++ l)) = true.
+Proof.
+  intros HW Hne Hw. destruct w as [|x w]; [congruence|]. cbn [app] in HW |- *. unfold starts_with_space.
+  rewrite (curr_byte_opt_st text) by exact HW. destruct (s_head _ _ Hw) as (_ & _ & Hx). exact Hx.
 Qed.
 
 Lemma s1_name_stop w l : wf_s1 w = true -> name_stop (w ++ l).
@@ -107,26 +144,43 @@ Proof.
   unfold slice_back. cbn [CstLex.st s_pos]. rewrite (mk_slice_v text p x l HW Hx). reflexivity.
 Qed.
 
-(* a quoted literal that is not read *)
-Lemma lit_steps p q v rest : WV p (r_lit q v ++ rest) -> wf_lit q v = true ->
-  consume_quote text (st p (r_lit q v ++ rest)) = Ok (q, st (p + 1) (utf8s v ++ [q] ++ rest)) /\
-  consume_bytes text (fun x => negb (x =? q)) (st (p + 1) (utf8s v ++ [q] ++ rest)) =
-    Ok (sl (p + 1) (p + 1 + blen (utf8s v)), st (p + 1 + blen (utf8s v)) ([q] ++ rest)) /\
-  consume_byte text q (st (p + 1 + blen (utf8s v)) ([q] ++ rest)) = Ok (st (p + blen (r_lit q v)) rest) /\
+(* a quoted system literal: Chars, not read otherwise *)
+Lemma syslit_steps p q v rest : WV p (r_lit q v ++ rest) -> wf_syslit q v = true ->
+  parse_external_literal text (st p (r_lit q v ++ rest)) = Ok (st (p + blen (r_lit q v)) rest) /\
   WV (p + blen (r_lit q v)) rest.
 Proof.
-  intros HW Hl. destruct (lit_parts q v Hl) as (Hq & Hv & Hnq).
+  intros HW Hl. destruct (syslit_parts q v Hl) as (Hq & Hv & Hnq & Hc).
   unfold r_lit in *. rewrite <- !app_assoc in *. cbn [app] in *.
   pose proof (WV_cons _ _ _ _ HW ltac:(clear - Hq; lia)) as HW1.
   pose proof (WV_app _ _ _ _ HW1 Hv) as HW2.
-  split; [apply consume_quote_st; [apply (WV_W _ _ _ HW)|exact Hq]|]. split.
-  { apply consume_bytes_st; [exact HW1|exact Hv|exact Hnq|cbn [stops]; rewrite N.eqb_refl; reflexivity]. }
-  replace (p + blen (q :: utf8s v ++ q :: rest) - blen rest) with (p + 1 + blen (utf8s v) + 1).
-  2:{ rewrite blen_cons, blen_app, blen_cons. lia. }
   assert (E : p + blen (q :: utf8s v ++ [q]) = p + 1 + blen (utf8s v) + 1).
   { rewrite blen_cons, blen_app, blen_cons, blen_nil. lia. }
-  rewrite E. split; [apply (consume_byte_st text); apply (WV_W _ _ _ HW2)|].
-  apply (WV_cons _ _ _ _ HW2). clear - Hq. lia.
+  rewrite E. split; [|apply (WV_cons _ _ _ _ HW2); clear - Hq; lia].
+  unfold parse_external_literal.
+  rewrite consume_quote_st by (try exact Hq; apply (WV_W _ _ _ HW)). cbn [bind]. cbv zeta.
+  rewrite consume_bytes_st; [|exact HW1|exact Hv|exact Hnq|cbn [stops]; rewrite N.eqb_refl; reflexivity].
+  cbn [bind].
+  rewrite (is_xml_str_u text _ v _ _ (WV_W _ _ _ HW1) (uchars_of v Hc)). cbn [bind].
+  apply (consume_byte_st text). apply (WV_W _ _ _ HW2).
+Qed.
+
+(* a quoted public literal: PubidChars *)
+Lemma publit_steps p q v rest : WV p (r_lit q v ++ rest) -> wf_publit q v = true ->
+  parse_pubid_literal text (st p (r_lit q v ++ rest)) = Ok (st (p + blen (r_lit q v)) rest) /\
+  WV (p + blen (r_lit q v)) rest.
+Proof.
+  intros HW Hl. destruct (publit_parts q v Hl) as (Hq & Hu & Ha & Hp).
+  unfold r_lit in *. rewrite Hu in *. rewrite <- !app_assoc in *. cbn [app] in *.
+  pose proof (WV_cons _ _ _ _ HW ltac:(clear - Hq; lia)) as HW1.
+  pose proof (WV_lit _ _ _ _ HW1 Ha) as HW2.
+  assert (E : p + blen (q :: v ++ [q]) = p + 1 + blen v + 1).
+  { rewrite blen_cons, blen_app, blen_cons, blen_nil. lia. }
+  rewrite E. split; [|apply (WV_cons _ _ _ _ HW2); clear - Hq; lia].
+  unfold parse_pubid_literal.
+  rewrite consume_quote_st by (try exact Hq; apply (WV_W _ _ _ HW)). cbn [bind]. cbv zeta.
+  rewrite (skip_bytes_st text); [|apply (WV_W _ _ _ HW1)|exact Hp|cbn [stops]; rewrite N.eqb_refl; reflexivity].
+  rewrite (curr_byte_st text) by (apply (WV_W _ _ _ HW2)). cbn [bind]. rewrite N.eqb_refl. cbn [negb].
+  apply (advance1_st text). apply (WV_W _ _ _ HW2).
 Qed.
 
 Lemma extid_head x rest : exists b0 l, r_extid x ++ rest = b0 :: l /\ (b0 = 83 \/ b0 = 80) /\ byte_is_space b0 = false.
@@ -137,7 +191,7 @@ Lemma lex_extid p x rest : WV p (r_extid x ++ rest) -> wf_extid x = true ->
 Proof.
   intros HW Hwf. pose proof (WV_W _ _ _ HW) as HW0. unfold parse_external_id. rewrite !(starts_with_st text) by exact HW0.
   destruct x as [ws q s|ws q pb ws' q' s]; cbn [wf_extid r_extid] in *; rewrite !andb_true_iff in Hwf; rewrite <- !app_assoc in *.
-  - destruct Hwf as [H1 H2]. destruct (s1_parts _ H1) as [Hne Hw]. destruct (lit_parts _ _ H2) as (Hq & _).
+  - destruct Hwf as [H1 H2]. destruct (s1_parts _ H1) as [Hne Hw]. destruct (syslit_parts _ _ H2) as (Hq & _).
     change (b "SYSTEM") with kw_system. rewrite prefix_b_app_same. cbn [orb CstLex.st s_pos].
     fold (st p (kw_system ++ ws ++ r_lit q s ++ rest)).
     rewrite (advance_st text 6 p kw_system) by (try reflexivity; exact HW0). cbn [bind].
@@ -146,12 +200,12 @@ Proof.
     pose proof (WV_lit _ _ _ _ HW (eq_refl : forallb (fun y => y <? 128) kw_system = true)) as HW1. change (blen kw_system) with 6 in *.
     rewrite consume_spaces_s; [|apply (WV_W _ _ _ HW1)|exact Hne|exact Hw|unfold r_lit; cbn [app stops]; apply quote_not_space; exact Hq].
     cbn [bind]. pose proof (WV_lit _ _ _ _ HW1 (s_lit _ Hw)) as HW2.
-    destruct (lit_steps _ _ _ _ HW2 H2) as (E1 & E2 & E3 & HW3).
-    rewrite E1. cbn [bind]. rewrite E2. cbn [bind]. rewrite E3. cbn [bind].
+    destruct (syslit_steps _ _ _ _ HW2 H2) as (E1 & HW3).
     change (sl p (p + 6)) with (sl p (p + blen kw_system)). rewrite (W_slice _ _ kw_system _ HW0). replace (bytes_eqb kw_system kw_system) with true by reflexivity.
+    rewrite E1. cbn [bind].
     f_equal. f_equal. f_equal. rewrite !blen_app. change (blen kw_system) with 6. clear. lia.
   - destruct Hwf as [[[H1 H2] H3] H4]. destruct (s1_parts _ H1) as [Hne Hw]. destruct (s1_parts _ H3) as [Hne' Hw'].
-    destruct (lit_parts _ _ H2) as (Hq & _). destruct (lit_parts _ _ H4) as (Hq' & _).
+    destruct (publit_parts _ _ H2) as (Hq & _). destruct (syslit_parts _ _ H4) as (Hq' & _).
     change (b "PUBLIC") with kw_public. rewrite prefix_b_app_same. rewrite orb_true_r. cbn [CstLex.st s_pos].
     fold (st p (kw_public ++ ws ++ r_lit q pb ++ ws' ++ r_lit q' s ++ rest)).
     rewrite (advance_st text 6 p kw_public) by (try reflexivity; exact HW0). cbn [bind].
@@ -160,13 +214,13 @@ Proof.
     pose proof (WV_lit _ _ _ _ HW (eq_refl : forallb (fun y => y <? 128) kw_public = true)) as HW1. change (blen kw_public) with 6 in *.
     rewrite consume_spaces_s; [|apply (WV_W _ _ _ HW1)|exact Hne|exact Hw|unfold r_lit; cbn [app stops]; apply quote_not_space; exact Hq].
     cbn [bind]. pose proof (WV_lit _ _ _ _ HW1 (s_lit _ Hw)) as HW2.
-    destruct (lit_steps _ _ _ _ HW2 H2) as (E1 & E2 & E3 & HW3).
-    rewrite E1. cbn [bind]. rewrite E2. cbn [bind]. rewrite E3. cbn [bind].
+    destruct (publit_steps _ _ _ _ HW2 H2) as (E1 & HW3).
     change (sl p (p + 6)) with (sl p (p + blen kw_public)). rewrite (W_slice _ _ kw_public _ HW0). replace (bytes_eqb kw_public (b "SYSTEM")) with false by reflexivity.
+    rewrite E1. cbn [bind].
     rewrite consume_spaces_s; [|apply (WV_W _ _ _ HW3)|exact Hne'|exact Hw'|unfold r_lit; cbn [app stops]; apply quote_not_space; exact Hq'].
     cbn [bind]. pose proof (WV_lit _ _ _ _ HW3 (s_lit _ Hw')) as HW4.
-    destruct (lit_steps _ _ _ _ HW4 H4) as (F1 & F2 & F3 & HW5).
-    rewrite F1. cbn [bind]. rewrite F2. cbn [bind]. rewrite F3. cbn [bind].
+    destruct (syslit_steps _ _ _ _ HW4 H4) as (F1 & HW5).
+    rewrite F1. cbn [bind].
     f_equal. f_equal. f_equal. rewrite !blen_app. change (blen kw_public) with 6. clear. lia.
 Qed.
 
@@ -191,9 +245,7 @@ Definition r_param (ws1 wsp : bytes) (name : scalars) (ws2 : bytes) (def : pedef
 Lemma pedef_valid d : wf_pedef d = true -> U8.Valid (r_pedef d).
 Proof.
   destruct d as [q v|x]; cbn [wf_pedef r_pedef]; [|apply extid_valid].
-  intros H. apply andb_true_iff in H. destruct H as [Hq Hv]. apply lit_valid. unfold wf_lit. rewrite Hq. cbn [andb].
-  revert Hv. apply forallb_imp. intros x Hx. apply andb_true_iff in Hx. destruct Hx as [Hc Hx]. rewrite Hx, andb_true_r.
-  rewrite CstSoundTText.scalar_eq. apply (char_scalar x Hc).
+  intros H. apply syslit_valid. exact H.
 Qed.
 
 Lemma lex_param q ws1 wsp name ws2 def ws3 post c :
@@ -337,8 +389,9 @@ Proof.
     rewrite (lex_extid text _ _ _ HWd Hx). cbn [bind]. fold pe.
     destruct ndata as [[[wa wb] nn]|]; cbn [r_opt wf_opt] in *.
     - unfold wf_ndata in Hnd. cbn [fst snd] in Hnd. rewrite !andb_true_iff in Hnd. destruct Hnd as [[Ha Hb] Hnn].
-      destruct (s1_parts _ Ha) as [_ Hwa]. destruct (s1_parts _ Hb) as [Hneb Hwb].
+      destruct (s1_parts _ Ha) as [Hnea Hwa]. destruct (s1_parts _ Hb) as [Hneb Hwb].
       unfold r_ndata in *. cbn [fst snd] in *. rewrite <- !app_assoc in *.
+      rewrite (starts_with_space_s text) by (try exact HWe'; try exact Hwa; exact Hnea). cbn [negb].
       rewrite (skip_spaces_st text); [|exact HWe'|apply s_spaces; exact Hwa|reflexivity].
       pose proof (WV_lit _ _ _ _ HWe (s_lit _ Hwa)) as HWf. pose proof (WV_W _ _ _ HWf) as HWf'.
       rewrite (starts_with_st text) by exact HWf'. change (b "NDATA") with kw_ndata. rewrite prefix_b_app_same.
